@@ -50,6 +50,11 @@ class Fixer:
             parent = subroutine.parent
             while parent is not None:
                 parent.source.invalidate(children=True)
+                # The conservative backend re-uses the source of a valid ``contains``
+                # section verbatim, which would drop the changes to contained procedures
+                contains = getattr(parent, 'contains', None)
+                if contains is not None and contains.source is not None:
+                    contains.source.invalidate(children=True)
                 parent = getattr(parent, 'parent', None)
 
         return subroutine
@@ -88,10 +93,10 @@ class Fixer:
             # Depth-first traversal
             if hasattr(ast, 'subroutines') and ast.subroutines is not None:
                 for routine in ast.subroutines:
-                    cls.fix_subroutine(routine, reports, config)
+                    cls.fix(routine, reports, config)
             if hasattr(ast, 'modules') and ast.modules is not None:
                 for module in ast.modules:
-                    cls.fix_module(module, reports, config)
+                    cls.fix(module, reports, config)
 
             cls.fix_sourcefile(ast, reports, config)
 
@@ -100,7 +105,7 @@ class Fixer:
             # Depth-first traversal
             if hasattr(ast, 'subroutines') and ast.subroutines is not None:
                 for routine in ast.subroutines:
-                    cls.fix_subroutine(routine, reports, config)
+                    cls.fix(routine, reports, config)
 
             cls.fix_module(ast, reports, config)
 
@@ -109,7 +114,7 @@ class Fixer:
             # Depth-first traversal
             if hasattr(ast, 'members') and ast.members is not None:
                 for routine in ast.members:
-                    cls.fix_subroutine(routine, reports, config)
+                    cls.fix(routine, reports, config)
 
             cls.fix_subroutine(ast, reports, config)
 
